@@ -30,7 +30,9 @@ type c12cell struct {
 
 // the fifth cell: an acceptable refresh whose directory swap FAILS (renames return errors through all their retries),
 // so that the crash points also cover the store's way back to the previous database
-var c12cells = []c12cell{{"first", "accepted"}, {"first", "rejected"}, {"refresh", "accepted"}, {"refresh", "rejected"}, {"refresh", "swapfault"}}
+// the sixth cell: a first load driven by the UPDATER (the first handshake met an unreachable origin; the next refresh
+// cycle loads the entry for the first time) of a list that fails verification
+var c12cells = []c12cell{{"first", "accepted"}, {"first", "rejected"}, {"refresh", "accepted"}, {"refresh", "rejected"}, {"refresh", "swapfault"}, {"first-by-updater", "rejected"}}
 var c12kinds = []string{"hit", "os", "st", "st-torn"}
 
 func c12dims(tier string) (perHit, perOs, perSt int) {
@@ -107,6 +109,12 @@ func runC12(h *Harness) {
 			return
 		}
 		prev, newV = 0, 1
+	}
+	if cell.scenario == "first-by-updater" {
+		loc.State = oDown
+		h.Handshake(n, "learn-while-down", w.ChainFor(loc.Cert(loc.Never[0]), w.A))
+		h.Quiesce()
+		loc.State = oGood
 	}
 	loc.Cur = newV
 	if cell.outcome == "rejected" {
